@@ -37,7 +37,7 @@ from tornado import escape
 from vlib.runner import HarnessError, Violation
 
 PROPERTY = "C21"
-READY = False
+READY = True
 RULE = (
     "five Hypothesis parts (html, url, json, utf8, query); texts are concatenations of <=25 fragments "
     "(single special characters & < > \" ' ; # / + % space controls astral, entity look-alikes such as "
